@@ -178,3 +178,78 @@ Proof.
   apply sample_in_ball_from_spec; [exact Htau|apply (shake256_ok H HL)].
 Qed.
 End S.
+
+(* ---------- shape of the specification's sampler outputs ---------- *)
+Lemma upd_small (c : list Z) n v : Z.abs v <= 1 -> Forall (fun x => Z.abs x <= 1) c -> Forall (fun x => Z.abs x <= 1) (upd c n v).
+Proof.
+  intros Hv. revert n. induction c as [|x c IH]; intros n H; [destruct n; constructor|].
+  inversion H; subst. destruct n; cbn; constructor; auto.
+Qed.
+Lemma nth_small (c : list Z) n : Forall (fun x => Z.abs x <= 1) c -> Z.abs (nth n c 0) <= 1.
+Proof.
+  revert n. induction c as [|x c IH]; intros n H; [destruct n; cbn; lia|].
+  inversion H; subst. destruct n; cbn; auto.
+Qed.
+Lemma SampleInBall_loop_shape tau hbits : forall is c s c',
+  length c = 256%nat -> Forall (fun x => Z.abs x <= 1) c -> SampleInBall_loop tau hbits is c s = Some c' ->
+  length c' = 256%nat /\ Forall (fun x => Z.abs x <= 1) c'.
+Proof.
+  induction is as [|i is IH]; intros c s c' Hl Hs E; cbn [SampleInBall_loop] in E.
+  - injection E as <-. split; assumption.
+  - destruct (sib_squeeze i s) as [[j s']|]; [|discriminate].
+    apply IH in E; [exact E| |].
+    + unfold zupd. rewrite !upd_length. exact Hl.
+    + unfold zupd. apply upd_small; [destruct (nth _ hbits false); cbn; lia|]. apply upd_small; [|exact Hs]. unfold znth. apply nth_small. exact Hs.
+Qed.
+Lemma first_some_inv {A} (f : nat -> option A) fuels a : first_some f fuels = Some a -> exists n, f n = Some a.
+Proof. induction fuels as [|n r IH]; cbn; [discriminate|]. destruct (f n) eqn:E; [intros Eq; injection Eq as <-; exists n; exact E|exact IH]. Qed.
+Lemma SampleInBall_shape H tau rho c : SampleInBall H tau rho = Some c -> length c = 256%nat /\ Forall (fun x => Z.abs x <= 1) c.
+Proof.
+  unfold SampleInBall. intros E. apply first_some_inv in E as (n & E). unfold SampleInBall_from in E.
+  destruct (zlen _ <? 8); [discriminate|]. apply SampleInBall_loop_shape in E; [exact E|apply repeat_length|].
+  apply Forall_forall. intros x Hx. apply repeat_spec in Hx. subst. cbn. lia.
+Qed.
+
+Lemma RejNTTPoly_loop_shape : forall n s need acc r, (length s <= n)%nat -> bytes_ok s ->
+  Forall (fun x => 0 <= x < Q) acc -> RejNTTPoly_loop s need acc = Some r ->
+  Forall (fun x => 0 <= x < Q) r /\ length r = (length acc + need)%nat.
+Proof.
+  induction n as [|n IH]; intros s need acc r Hn Hb Hacc E.
+  - destruct s; [|cbn in Hn; lia]. destruct need; cbn in E; [|discriminate]. injection E as <-. split; [apply Forall_rev; exact Hacc|rewrite rev_length; lia].
+  - destruct need as [|need'].
+    + destruct s; cbn in E; injection E as <-; (split; [apply Forall_rev; exact Hacc|rewrite rev_length; lia]).
+    + destruct s as [|b0 [|b1 [|b2 t]]]; cbn [RejNTTPoly_loop] in E; try discriminate.
+      inversion Hb as [|? ? H0 Hb1]; subst. inversion Hb1 as [|? ? H1 Hb2]; subst. inversion Hb2 as [|? ? H2 Hb3]; subst.
+      unfold CoeffFromThreeBytes in E.
+      destruct (65536 * (if 127 <? b2 then b2 - 128 else b2) + 256 * b1 + b0 <? q) eqn:Eq.
+      * apply IH in E; [|cbn in Hn; lia|exact Hb3|].
+        -- destruct E as [E1 E2]. split; [exact E1|cbn [length] in E2; lia].
+        -- constructor; [|exact Hacc]. apply Z.ltb_lt in Eq. unfold q in Eq. split; [|exact Eq]. destruct (127 <? b2) eqn:E7; [apply Z.ltb_lt in E7|]; lia.
+      * apply IH in E; [exact E|cbn in Hn; lia|exact Hb3|exact Hacc].
+Qed.
+
+Section Shapes.
+Variable H : Hashes.
+Hypothesis HL : HashLaws H.
+Lemma RejNTTPoly_shape seed r : RejNTTPoly H seed = Some r -> Forall (fun x => 0 <= x < Q) r /\ length r = 256%nat.
+Proof.
+  unfold RejNTTPoly. intros E. apply first_some_inv in E as (n & E).
+  apply (RejNTTPoly_loop_shape (length (h_shake128 H seed n))) in E; [exact E|lia|apply (shake128_ok H HL)|constructor].
+Qed.
+Lemma option_all_map_inv {A B} (g : A -> option B) (l : list A) r : option_all (map g l) = Some r -> Forall2 (fun x b => g x = Some b) l r.
+Proof.
+  revert r. induction l as [|x l IH]; intros r E; cbn in E; [injection E as <-; constructor|].
+  destruct (g x) as [b|] eqn:Eg; [|discriminate]. destruct (option_all (map g l)) as [rs|]; [|discriminate]. injection E as <-. constructor; [exact Eg|apply IH; reflexivity].
+Qed.
+Lemma ExpandA_shape P rho A : ExpandA H P rho = Some A ->
+  length A = p_k P /\ Forall (fun row => Forall (fun p => Forall (fun x => 0 <= x < Q) p) row /\ length row = p_l P /\ Forall (fun p => length p = 256%nat) row) A.
+Proof.
+  unfold ExpandA. intros E. apply option_all_map_inv in E.
+  split; [apply Forall2_length in E; rewrite seq_length in E; lia|].
+  induction E as [|r row rs A Hrow E IH]; constructor; [|exact IH].
+  apply option_all_map_inv in Hrow.
+  split; [|split; [apply Forall2_length in Hrow; rewrite seq_length in Hrow; lia|]].
+  - clear - Hrow HL. induction Hrow as [|s p ss row Hp Hrow IHr]; constructor; [|exact IHr]. apply RejNTTPoly_shape in Hp. apply Hp.
+  - clear - Hrow HL. induction Hrow as [|s p ss row Hp Hrow IHr]; constructor; [|exact IHr]. apply RejNTTPoly_shape in Hp. apply Hp.
+Qed.
+End Shapes.
